@@ -266,14 +266,25 @@ def check(ctx):
            "quarter is not ceil(month(x) / 3)", clause="quarter")
     ctx.count("dt extractors via _pull_int", n_ex, 9)
     ts = repo.fn("dataiter.dt.to_string")
-    ok = any(norm(c.func) == "_pull_str" and "strftime(format)" in norm(c) for _, c in calls_in(ts))
+    def _strftime_in(e):
+        """a .strftime(format) call inside ``e``, or inside a local function / lambda that ``e`` names"""
+        for c in ast.walk(e):
+            if isinstance(c, ast.Call) and isinstance(c.func, ast.Attribute) and c.func.attr == "strftime" \
+                    and c.args and norm(c.args[0]) == (ts.params[1] if len(ts.params) > 1 else "format"):
+                return True
+            if isinstance(c, ast.Name) and c.id in ts.nested and any(
+                    isinstance(z, ast.Call) and isinstance(z.func, ast.Attribute) and z.func.attr == "strftime" and z.args
+                    and norm(z.args[0]) == (ts.params[1] if len(ts.params) > 1 else "format") for z in ast.walk(ts.nested[c.id].node)):
+                return True
+        return False
+    ok = any(norm(c.func) == "_pull_str" and _strftime_in(c) for _, c in calls_in(ts, False))
     ctx.ob("SIB-18", ts, "to_string -> strftime(format)", ts.node, ok, "format is forwarded to strftime" if ok else "to_string does not call strftime(format)", nontrivial=False)
     # every result of to_string is produced by datetime.strftime: another formatter (np.datetime_as_string, isoformat)
     # agrees with it only on part of the domain (years below 1000, %-directives of the platform)
     from ..forms import expand as _exp19
     for r_ in [n for n in body_nodes(ts.node) if isinstance(n, ast.Return) and n.value is not None]:
         e_ = _exp19(ts, r_.value, r_)
-        thr = any(isinstance(c, ast.Call) and isinstance(c.func, ast.Attribute) and c.func.attr == "strftime" for c in ast.walk(e_))
+        thr = _strftime_in(e_)
         ctx.ob("SIB-18", ts, f"return {norm(r_.value)[:50]} comes from strftime", r_, thr,
                "formatted by datetime.strftime" if thr else
                f"this exit formats without datetime.strftime ({norm(e_)[:60]}): where the two formatters differ (e.g. the year of dates "
